@@ -101,6 +101,7 @@ func (r *returnsRunner) execute(cmd *cobra.Command, args []string) error {
 		journal.ComputePrices(valuation),
 		check.Check(),
 		journal.Valuate(reg, valuation),
+		journal.Sort(),
 		calculator.ComputeValues(),
 		calculator.ComputeFlows(),
 		performance.Perf(j, partition),
